@@ -3,9 +3,22 @@
 //! off-circuit helpers (zero / non-zero, equal / unequal, carries, identity points, lengths).
 
 use ff::{Field, PrimeField};
+use group::Group;
 use midnight_circuits::{
-    instructions::{public_input::CommittedInstanceInstructions, *},
-    types::{AssignedBit, AssignedByte, AssignedNative},
+    biguint::AssignedBigUint,
+    ecc::curves::CircuitCurve,
+    field::foreign::params::MultiEmulationParams as MEP,
+    hash::poseidon::PoseidonChip,
+    instructions::{map::{MapCPU, MapInstructions}, public_input::CommittedInstanceInstructions, *},
+    map::cpu::MapMt,
+    types::{
+        AssignedBit, AssignedByte, AssignedField, AssignedForeignPoint, AssignedNative,
+        AssignedNativePoint, AssignedScalarOfNativeCurve, AssignedVector,
+    },
+};
+use midnight_curves::{
+    k256::{Fp as KFp, Fq as KFq, K256},
+    Fr as JFr, G1Projective, JubjubExtended as Jub, JubjubSubgroup,
 };
 use midnight_proofs::{
     circuit::{Layouter, Value},
@@ -31,7 +44,20 @@ pub struct W {
     pub big: Vec<BigUint>,
     /// values bound through the committed-instance column
     pub committed: Vec<F>,
+    pub js: Vec<JFr>,
+    pub jp: Vec<JubjubSubgroup>,
+    pub ks: Vec<KFq>,
+    pub kb: Vec<KFp>,
+    pub kp: Vec<K256>,
+    pub gp: Vec<G1Projective>,
+    /// variable-length byte vector (vector gadget, base64)
+    pub vy: Vec<u8>,
+    pub map: Option<Map>,
 }
+
+pub type Map = MapMt<F, PoseidonChip<F>>;
+pub const VM: usize = 16;
+pub const VA: usize = 4;
 
 impl W {
     pub fn f(v: &[F]) -> W {
@@ -39,11 +65,12 @@ impl W {
     }
     pub fn render(&self) -> String {
         format!(
-            "f=[{}] b=[{}] y=[{}] big=[{}]",
+            "f=[{}] b=[{}] y=[{}] big=[{}] js={:?} jp={:?} ks={:?} kb={:?} kp={:?} gp={:?} vy={:?} map={}",
             self.f.iter().map(mzkh::fe_hex).collect::<Vec<_>>().join(","),
             self.b.iter().map(|b| (*b as u8).to_string()).collect::<Vec<_>>().join(","),
             self.y.iter().map(|b| b.to_string()).collect::<Vec<_>>().join(","),
             self.big.iter().map(mzkh::big_hex).collect::<Vec<_>>().join(","),
+            self.js, self.jp, self.ks, self.kb, self.kp, self.gp, self.vy, self.map.is_some(),
         )
     }
 }
@@ -100,12 +127,128 @@ pub enum Op {
     PiCommitted,
     // constant cache
     FixedSeq(Vec<u64>),
+    // Jubjub (native Edwards chip), Poseidon, hash to curve
+    JubAdd,
+    JubDouble,
+    JubNegate,
+    JubMsm(usize),
+    JubMulConst(u64),
+    JubIsEqual,
+    JubSelect,
+    JubFromCoords,
+    JubScalarFromNative,
+    JubPi,
+    Poseidon(usize),
+    HashToCurve(usize),
+    // foreign field: secp256k1 scalar field (`true`) or base field (`false`)
+    FfAdd(bool),
+    FfSub(bool),
+    FfMul(bool),
+    FfDiv(bool),
+    FfNeg(bool),
+    FfInv(bool),
+    FfIsEqual(bool),
+    FfIsZero(bool),
+    FfToBits(bool),
+    FfToBytes(bool),
+    FfPi(bool),
+    // secp256k1
+    K1Add,
+    K1Double,
+    K1Negate,
+    K1Msm(usize),
+    K1MulConst(u64),
+    K1IsEqual,
+    K1Select,
+    K1Pi,
+    // bls12-381 G1 as a foreign curve
+    BlsAdd,
+    BlsDouble,
+    BlsMsm,
+    // hashes over bytes
+    Sha256(usize),
+    Sha512(usize),
+    Sha3(usize),
+    Keccak(usize),
+    Blake2b(usize),
+    // big unsigned integers (bit bound)
+    BigAdd(u32),
+    BigSub(u32),
+    BigMul(u32),
+    BigDivRem(u32),
+    BigModExp(u32, u64),
+    BigLt(u32),
+    BigToBytes(u32),
+    BigPi(u32),
+    // vector gadget (M = 16, A = 4, bytes)
+    VecLimits,
+    VecPadFlag,
+    VecTrim(usize),
+    VecResize,
+    VecEq,
+    // map gadget
+    MapGet,
+    MapInsert,
+    // parsing
+    Base64(usize, bool),
+    FetchBytes(usize, usize),
 }
 
 impl Op {
     pub fn name(&self) -> String {
         format!("{self:?}").replace(' ', "")
     }
+}
+
+/// The foreign-field operation `$op` on chip `$c` (same code for both emulated fields).
+macro_rules! ff_op {
+    ($op:expr, $c:expr, $l:expr, $x:expr, $y:expr, $outb:expr, $outy:expr) => {{
+        let (c, l, x, y) = ($c, $l, $x, $y);
+        match &$op {
+            Op::FfAdd(_) => {
+                let r = c.add(l, &x, &y)?;
+                c.constrain_as_public_input(l, &r)
+            }
+            Op::FfSub(_) => {
+                let r = c.sub(l, &x, &y)?;
+                c.constrain_as_public_input(l, &r)
+            }
+            Op::FfMul(_) => {
+                let r = c.mul(l, &x, &y, None)?;
+                c.constrain_as_public_input(l, &r)
+            }
+            Op::FfDiv(_) => {
+                let r = c.div(l, &x, &y)?;
+                c.constrain_as_public_input(l, &r)
+            }
+            Op::FfNeg(_) => {
+                let r = c.neg(l, &x)?;
+                c.constrain_as_public_input(l, &r)
+            }
+            Op::FfInv(_) => {
+                let r = c.inv(l, &x)?;
+                c.constrain_as_public_input(l, &r)
+            }
+            Op::FfIsEqual(_) => {
+                let r = c.is_equal(l, &x, &y)?;
+                $outb(l, &r)
+            }
+            Op::FfIsZero(_) => {
+                let r = c.is_zero(l, &x)?;
+                $outb(l, &r)
+            }
+            Op::FfToBits(_) => {
+                let bits = c.assigned_to_le_bits(l, &x, None, true)?;
+                $outb(l, &bits[0])?;
+                $outb(l, bits.last().unwrap())
+            }
+            Op::FfToBytes(_) => {
+                let bytes = c.assigned_to_le_bytes(l, &x, None)?;
+                bytes.iter().try_for_each(|b| $outy(l, b))
+            }
+            _ => c.constrain_as_public_input(l, &x),
+        }
+    }};
 }
 
 #[derive(Clone, Debug)]
@@ -136,7 +279,28 @@ impl Relation for OpRel {
     }
 
     fn used_chips(&self) -> ZkStdLibArch {
-        ZkStdLibArch::default()
+        let d = ZkStdLibArch::default();
+        match &self.op {
+            Op::JubAdd | Op::JubDouble | Op::JubNegate | Op::JubMsm(_) | Op::JubMulConst(_) | Op::JubIsEqual
+            | Op::JubSelect | Op::JubFromCoords | Op::JubScalarFromNative | Op::JubPi => ZkStdLibArch { jubjub: true, ..d },
+            Op::Poseidon(_) | Op::MapGet | Op::MapInsert => ZkStdLibArch { poseidon: true, ..d },
+            Op::HashToCurve(_) => ZkStdLibArch { jubjub: true, poseidon: true, ..d },
+            Op::FfAdd(_) | Op::FfSub(_) | Op::FfMul(_) | Op::FfDiv(_) | Op::FfNeg(_) | Op::FfInv(_) | Op::FfIsEqual(_)
+            | Op::FfIsZero(_) | Op::FfToBits(_) | Op::FfToBytes(_) | Op::FfPi(_) | Op::K1Add | Op::K1Double | Op::K1Negate
+            | Op::K1Msm(_) | Op::K1MulConst(_) | Op::K1IsEqual | Op::K1Select | Op::K1Pi => {
+                ZkStdLibArch { secp256k1: true, nr_pow2range_cols: 4, ..d }
+            }
+            Op::BlsAdd | Op::BlsDouble | Op::BlsMsm => ZkStdLibArch { bls12_381: true, nr_pow2range_cols: 4, ..d },
+            Op::Sha256(_) => ZkStdLibArch { sha2_256: true, ..d },
+            Op::Sha512(_) => ZkStdLibArch { sha2_512: true, ..d },
+            Op::Sha3(_) => ZkStdLibArch { sha3_256: true, ..d },
+            Op::Keccak(_) => ZkStdLibArch { keccak_256: true, ..d },
+            Op::Blake2b(_) => ZkStdLibArch { blake2b: true, ..d },
+            Op::BigAdd(_) | Op::BigSub(_) | Op::BigMul(_) | Op::BigDivRem(_) | Op::BigModExp(..) | Op::BigLt(_)
+            | Op::BigToBytes(_) | Op::BigPi(_) => ZkStdLibArch { nr_pow2range_cols: 4, ..d },
+            Op::Base64(..) => ZkStdLibArch { base64: true, ..d },
+            _ => d,
+        }
     }
 
     fn write_relation<Wr: std::io::Write>(&self, _writer: &mut Wr) -> std::io::Result<()> {
@@ -161,6 +325,7 @@ impl Relation for OpRel {
         // is part of the compared structure
         let out = |l: &mut _, x: &AN| -> Result<(), Error> { s.constrain_as_public_input(l, x) };
         let outb = |l: &mut _, x: &AB| -> Result<(), Error> { s.constrain_as_public_input(l, x) };
+        let outy = |l: &mut _, x: &AY| -> Result<(), Error> { s.constrain_as_public_input(l, x) };
         match &self.op {
             Op::Add => {
                 let (x, y) = (nat(l, 0)?, nat(l, 1)?);
@@ -373,6 +538,260 @@ impl Relation for OpRel {
                 s.constrain_as_committed_public_input(l, &x)?;
                 let y = s.add_constant(l, &x, F::ONE)?;
                 out(l, &y)
+            }
+            Op::JubAdd | Op::JubIsEqual | Op::JubSelect => {
+                let j = s.jubjub();
+                let p: AssignedNativePoint<Jub> = j.assign(l, w.as_ref().map(|w| w.jp[0]))?;
+                let q: AssignedNativePoint<Jub> = j.assign(l, w.as_ref().map(|w| w.jp[1]))?;
+                match &self.op {
+                    Op::JubAdd => {
+                        let r = j.add(l, &p, &q)?;
+                        j.constrain_as_public_input(l, &r)
+                    }
+                    Op::JubIsEqual => {
+                        let r = j.is_equal(l, &p, &q)?;
+                        outb(l, &r)
+                    }
+                    _ => {
+                        let c = bit(l, 0)?;
+                        let r = j.select(l, &c, &p, &q)?;
+                        j.constrain_as_public_input(l, &r)
+                    }
+                }
+            }
+            Op::JubDouble | Op::JubNegate | Op::JubMulConst(_) | Op::JubPi => {
+                let j = s.jubjub();
+                let p: AssignedNativePoint<Jub> = j.assign(l, w.as_ref().map(|w| w.jp[0]))?;
+                let r = match &self.op {
+                    Op::JubDouble => j.double(l, &p)?,
+                    Op::JubNegate => j.negate(l, &p)?,
+                    Op::JubMulConst(c) => j.mul_by_constant(l, JFr::from(*c), &p)?,
+                    _ => p,
+                };
+                j.constrain_as_public_input(l, &r)
+            }
+            Op::JubMsm(n) => {
+                let j = s.jubjub();
+                let mut ss = vec![];
+                let mut ps = vec![];
+                for i in 0..*n {
+                    let sc: AssignedScalarOfNativeCurve<Jub> = j.assign(l, w.as_ref().map(|w| w.js[i]))?;
+                    let p: AssignedNativePoint<Jub> = j.assign(l, w.as_ref().map(|w| w.jp[i]))?;
+                    ss.push(sc);
+                    ps.push(p);
+                }
+                let r = j.msm(l, &ss, &ps)?;
+                j.constrain_as_public_input(l, &r)
+            }
+            Op::JubFromCoords => {
+                let j = s.jubjub();
+                let (x, y) = (nat(l, 0)?, nat(l, 1)?);
+                let r = j.point_from_coordinates(l, &x, &y)?;
+                j.constrain_as_public_input(l, &r)
+            }
+            Op::JubScalarFromNative => {
+                let j = s.jubjub();
+                let x = nat(l, 0)?;
+                let sc: AssignedScalarOfNativeCurve<Jub> = j.convert(l, &x)?;
+                let g: AssignedNativePoint<Jub> = j.assign_fixed(l, <JubjubSubgroup as Group>::generator())?;
+                let r = j.msm(l, &[sc], &[g])?;
+                j.constrain_as_public_input(l, &r)
+            }
+            Op::Poseidon(n) => {
+                let xs = (0..*n).map(|i| nat(l, i)).collect::<Result<Vec<_>, _>>()?;
+                let r = s.poseidon(l, &xs)?;
+                out(l, &r)
+            }
+            Op::HashToCurve(n) => {
+                let xs = (0..*n).map(|i| nat(l, i)).collect::<Result<Vec<_>, _>>()?;
+                let r = s.hash_to_curve(l, &xs)?;
+                s.jubjub().constrain_as_public_input(l, &r)
+            }
+            Op::FfAdd(sc) | Op::FfSub(sc) | Op::FfMul(sc) | Op::FfDiv(sc) | Op::FfNeg(sc) | Op::FfInv(sc)
+            | Op::FfIsEqual(sc) | Op::FfIsZero(sc) | Op::FfToBits(sc) | Op::FfToBytes(sc) | Op::FfPi(sc) => {
+                if *sc {
+                    let c = s.secp256k1_scalar();
+                    let x: AssignedField<F, KFq, MEP> = c.assign(l, w.as_ref().map(|w| w.ks[0]))?;
+                    let y: AssignedField<F, KFq, MEP> = c.assign(l, w.as_ref().map(|w| w.ks[1]))?;
+                    ff_op!(self.op, c, l, x, y, outb, outy)
+                } else {
+                    let c = s.secp256k1_curve().base_field_chip();
+                    let x: AssignedField<F, KFp, MEP> = c.assign(l, w.as_ref().map(|w| w.kb[0]))?;
+                    let y: AssignedField<F, KFp, MEP> = c.assign(l, w.as_ref().map(|w| w.kb[1]))?;
+                    ff_op!(self.op, c, l, x, y, outb, outy)
+                }
+            }
+            Op::K1Add | Op::K1IsEqual | Op::K1Select => {
+                let c = s.secp256k1_curve();
+                let p: AssignedForeignPoint<F, K256, MEP> = c.assign(l, w.as_ref().map(|w| w.kp[0]))?;
+                let q: AssignedForeignPoint<F, K256, MEP> = c.assign(l, w.as_ref().map(|w| w.kp[1]))?;
+                match &self.op {
+                    Op::K1Add => {
+                        let r = c.add(l, &p, &q)?;
+                        c.constrain_as_public_input(l, &r)
+                    }
+                    Op::K1IsEqual => {
+                        let r = c.is_equal(l, &p, &q)?;
+                        outb(l, &r)
+                    }
+                    _ => {
+                        let b = bit(l, 0)?;
+                        let r = c.select(l, &b, &p, &q)?;
+                        c.constrain_as_public_input(l, &r)
+                    }
+                }
+            }
+            Op::K1Double | Op::K1Negate | Op::K1MulConst(_) => {
+                let c = s.secp256k1_curve();
+                let p: AssignedForeignPoint<F, K256, MEP> = c.assign(l, w.as_ref().map(|w| w.kp[0]))?;
+                let r = match &self.op {
+                    Op::K1Double => c.double(l, &p)?,
+                    Op::K1Negate => c.negate(l, &p)?,
+                    Op::K1MulConst(k) => c.mul_by_constant(l, KFq::from(*k), &p)?,
+                    _ => unreachable!(),
+                };
+                c.constrain_as_public_input(l, &r)
+            }
+            Op::K1Pi => {
+                let c = s.secp256k1_curve();
+                let _p: AssignedForeignPoint<F, K256, MEP> = c.assign_as_public_input(l, w.as_ref().map(|w| w.kp[0]))?;
+                Ok(())
+            }
+            Op::K1Msm(n) => {
+                let c = s.secp256k1_curve();
+                let sc = s.secp256k1_scalar();
+                let mut ss = vec![];
+                let mut ps = vec![];
+                for i in 0..*n {
+                    let x: AssignedField<F, KFq, MEP> = sc.assign(l, w.as_ref().map(|w| w.ks[i]))?;
+                    let p: AssignedForeignPoint<F, K256, MEP> = c.assign(l, w.as_ref().map(|w| w.kp[i]))?;
+                    ss.push(x);
+                    ps.push(p);
+                }
+                let r = c.msm(l, &ss, &ps)?;
+                c.constrain_as_public_input(l, &r)
+            }
+            Op::BlsAdd | Op::BlsDouble | Op::BlsMsm => {
+                let c = s.bls12_381_curve();
+                let p: AssignedForeignPoint<F, G1Projective, MEP> = c.assign(l, w.as_ref().map(|w| w.gp[0]))?;
+                let r = match &self.op {
+                    Op::BlsAdd => {
+                        let q: AssignedForeignPoint<F, G1Projective, MEP> = c.assign(l, w.as_ref().map(|w| w.gp[1]))?;
+                        c.add(l, &p, &q)?
+                    }
+                    Op::BlsDouble => c.double(l, &p)?,
+                    _ => {
+                        let x = nat(l, 0)?;
+                        c.msm(l, &[x], &[p])?
+                    }
+                };
+                c.constrain_as_public_input(l, &r)
+            }
+            Op::Sha256(n) | Op::Sha512(n) | Op::Sha3(n) | Op::Keccak(n) | Op::Blake2b(n) => {
+                let bytes = (0..*n).map(|i| byte(l, i)).collect::<Result<Vec<_>, _>>()?;
+                let outv: Vec<AY> = match &self.op {
+                    Op::Sha256(_) => s.sha2_256(l, &bytes)?.to_vec(),
+                    Op::Sha512(_) => s.sha2_512(l, &bytes)?.to_vec(),
+                    Op::Sha3(_) => s.sha3_256(l, &bytes)?.to_vec(),
+                    Op::Keccak(_) => s.keccak_256(l, &bytes)?.to_vec(),
+                    _ => s.blake2b_256(l, &bytes)?.to_vec(),
+                };
+                outv.iter().try_for_each(|b| s.constrain_as_public_input(l, b))
+            }
+            Op::BigAdd(nb) | Op::BigSub(nb) | Op::BigMul(nb) | Op::BigDivRem(nb) | Op::BigModExp(nb, _) | Op::BigLt(nb)
+            | Op::BigToBytes(nb) | Op::BigPi(nb) => {
+                let g = s.biguint();
+                let x: AssignedBigUint<F> = g.assign_biguint(l, w.as_ref().map(|w| w.big[0].clone()), *nb)?;
+                let y: AssignedBigUint<F> = g.assign_biguint(l, w.as_ref().map(|w| w.big[1].clone()), *nb)?;
+                match &self.op {
+                    Op::BigAdd(_) => {
+                        let r = g.add(l, &x, &y)?;
+                        g.constrain_as_public_input(l, &r, r.nb_bits())
+                    }
+                    Op::BigSub(_) => {
+                        let r = g.sub(l, &x, &y)?;
+                        g.constrain_as_public_input(l, &r, r.nb_bits())
+                    }
+                    Op::BigMul(_) => {
+                        let r = g.mul(l, &x, &y)?;
+                        g.constrain_as_public_input(l, &r, r.nb_bits())
+                    }
+                    Op::BigDivRem(_) => {
+                        let (q, r) = g.div_rem(l, &x, &y)?;
+                        g.constrain_as_public_input(l, &q, q.nb_bits())?;
+                        g.constrain_as_public_input(l, &r, r.nb_bits())
+                    }
+                    Op::BigModExp(_, e) => {
+                        let r = g.mod_exp(l, &x, *e, &y)?;
+                        g.constrain_as_public_input(l, &r, r.nb_bits())
+                    }
+                    Op::BigLt(_) => {
+                        let r = g.lower_than(l, &x, &y)?;
+                        outb(l, &r)
+                    }
+                    Op::BigToBytes(_) => {
+                        let bytes = g.to_le_bytes(l, &x)?;
+                        s.constrain_as_public_input(l, &bytes[0])?;
+                        s.constrain_as_public_input(l, bytes.last().unwrap())
+                    }
+                    _ => g.constrain_as_public_input(l, &x, *nb),
+                }
+            }
+            Op::VecLimits | Op::VecPadFlag | Op::VecTrim(_) | Op::VecResize | Op::VecEq => {
+                let v: AssignedVector<F, AY, VM, VA> =
+                    s.assign_with_filler(l, w.as_ref().map(|w| w.vy.clone()), None)?;
+                match &self.op {
+                    Op::VecLimits => {
+                        let (a, b) = s.get_limits(l, &v)?;
+                        out(l, &a)?;
+                        out(l, &b)
+                    }
+                    Op::VecPadFlag => {
+                        let flags = s.padding_flag(l, &v)?;
+                        flags.iter().try_for_each(|b| outb(l, b))
+                    }
+                    Op::VecTrim(n) => {
+                        let t = s.trim_beginning(l, &v, *n)?;
+                        let (a, b) = s.get_limits(l, &t)?;
+                        out(l, &a)?;
+                        out(l, &b)
+                    }
+                    Op::VecResize => {
+                        let t: AssignedVector<F, AY, 32, VA> = s.resize(l, v)?;
+                        let (a, b) = s.get_limits(l, &t)?;
+                        out(l, &a)?;
+                        out(l, &b)
+                    }
+                    _ => {
+                        let v2: AssignedVector<F, AY, VM, VA> =
+                            s.assign_with_filler(l, w.as_ref().map(|w| w.y.clone()), None)?;
+                        let r = s.is_equal(l, &v, &v2)?;
+                        outb(l, &r)
+                    }
+                }
+            }
+            Op::MapGet | Op::MapInsert => {
+                let mut map = s.map_gadget().clone();
+                map.init(l, w.as_ref().map(|w| w.map.clone().unwrap()))?;
+                let key = nat(l, 0)?;
+                if self.op == Op::MapInsert {
+                    let val = nat(l, 1)?;
+                    map.insert(l, &key, &val)?;
+                }
+                let v = map.get(l, &key)?;
+                out(l, &map.succinct_repr())?;
+                out(l, &v)
+            }
+            Op::Base64(n, padded) => {
+                let bytes = (0..*n).map(|i| byte(l, i)).collect::<Result<Vec<_>, _>>()?;
+                let dec = s.base64().decode_base64(l, &bytes, *padded)?;
+                dec.iter().try_for_each(|b| s.constrain_as_public_input(l, b))
+            }
+            Op::FetchBytes(n, len) => {
+                let bytes = (0..*n).map(|i| byte(l, i)).collect::<Result<Vec<_>, _>>()?;
+                let idx = nat(l, 0)?;
+                let r = s.parser().fetch_bytes(l, &bytes, &idx, *len)?;
+                r.iter().try_for_each(|b| s.constrain_as_public_input(l, b))
             }
             Op::FixedSeq(cs) => {
                 // constants are parameters of the operation, not witnesses; the witness is added
@@ -652,6 +1071,267 @@ pub fn classes(op: &Op, rng: &mut ChaCha8Rng, nrand: usize) -> Vec<Class> {
                 out.push(cls(&format!("rand{i}"), W::f(&(0..*n).map(|_| rand_f(rng)).collect::<Vec<_>>())));
             }
         }
+        Op::JubAdd | Op::JubIsEqual | Op::JubSelect => {
+            let g = <JubjubSubgroup as Group>::generator();
+            let id = <JubjubSubgroup as Group>::identity();
+            let r1 = g * JFr::random(&mut *rng);
+            let r2 = g * JFr::random(&mut *rng);
+            for (n, p, q) in [
+                ("id,id", id, id), ("id,g", id, g), ("g,id", g, id), ("p,p", r1, r1), ("p,-p", r1, -r1),
+                ("g,g", g, g), ("p,q", r1, r2),
+            ] {
+                for b in [false, true] {
+                    if *op != Op::JubSelect && b {
+                        continue;
+                    }
+                    out.push(cls(&format!("{n},c={b}"), W { jp: vec![p, q], b: vec![b], ..W::default() }));
+                }
+            }
+        }
+        Op::JubDouble | Op::JubNegate | Op::JubMulConst(_) | Op::JubPi => {
+            let g = <JubjubSubgroup as Group>::generator();
+            let id = <JubjubSubgroup as Group>::identity();
+            out.push(cls("id", W { jp: vec![id], ..W::default() }));
+            out.push(cls("g", W { jp: vec![g], ..W::default() }));
+            out.push(cls("-g", W { jp: vec![-g], ..W::default() }));
+            for i in 0..nrand {
+                out.push(cls(&format!("rand{i}"), W { jp: vec![g * JFr::random(&mut *rng)], ..W::default() }));
+            }
+        }
+        Op::JubMsm(n) => {
+            let g = <JubjubSubgroup as Group>::generator();
+            let id = <JubjubSubgroup as Group>::identity();
+            let n = *n;
+            out.push(cls("s=0", W { js: vec![JFr::ZERO; n], jp: vec![g; n], ..W::default() }));
+            out.push(cls("s=1", W { js: vec![JFr::ONE; n], jp: vec![g; n], ..W::default() }));
+            out.push(cls("s=-1", W { js: vec![-JFr::ONE; n], jp: vec![g; n], ..W::default() }));
+            out.push(cls("p=id", W { js: vec![JFr::from(5); n], jp: vec![id; n], ..W::default() }));
+            out.push(cls("cancel", W { js: (0..n).map(|i| if i % 2 == 0 { JFr::ONE } else { -JFr::ONE }).collect(), jp: vec![g; n], ..W::default() }));
+            for i in 0..nrand {
+                out.push(cls(&format!("rand{i}"), W {
+                    js: (0..n).map(|_| JFr::random(&mut *rng)).collect(),
+                    jp: (0..n).map(|_| g * JFr::random(&mut *rng)).collect(),
+                    ..W::default()
+                }));
+            }
+        }
+        Op::JubFromCoords => {
+            use group::Curve;
+            let g = <JubjubSubgroup as Group>::generator();
+            for (n, p) in [("g", g), ("2g", g + g), ("rand", g * JFr::random(&mut *rng))] {
+                let e: Jub = p.into();
+                let a = e.to_affine();
+                out.push(cls(n, W::f(&[a.get_u(), a.get_v()])));
+            }
+            out.push(unsat("id", W::f(&[F::ZERO, F::ONE])));
+            out.push(unsat("off-curve", W::f(&[F::ONE, F::ONE])));
+        }
+        Op::JubScalarFromNative => {
+            for (n, x) in &bf {
+                out.push(cls(&format!("x={n}"), W::f(&[*x])));
+            }
+            for i in 0..nrand {
+                out.push(cls(&format!("rand{i}"), W::f(&[rand_f(rng)])));
+            }
+        }
+        Op::Poseidon(n) | Op::HashToCurve(n) => {
+            out.push(cls("all0", W::f(&vec![F::ZERO; *n])));
+            out.push(cls("all-1", W::f(&vec![-F::ONE; *n])));
+            for i in 0..nrand {
+                out.push(cls(&format!("rand{i}"), W::f(&(0..*n).map(|_| rand_f(rng)).collect::<Vec<_>>())));
+            }
+        }
+        Op::FfAdd(sc) | Op::FfSub(sc) | Op::FfMul(sc) | Op::FfDiv(sc) | Op::FfNeg(sc) | Op::FfInv(sc)
+        | Op::FfIsEqual(sc) | Op::FfIsZero(sc) | Op::FfToBits(sc) | Op::FfToBytes(sc) | Op::FfPi(sc) => {
+            // pairs over the emulated field: 0, 1, -1 (= modulus - 1: every limb at its bound),
+            // equal, opposite, a value whose low limbs are zero (carries), random
+            fn mk<K: PrimeField>(sc: bool, x: K, y: K) -> W
+            where
+                K: 'static,
+            {
+                let mut w = W::default();
+                let conv = |v: K| BigUint::from_bytes_le(v.to_repr().as_ref());
+                if sc {
+                    w.ks = vec![mzkh::fe_from_big::<KFq>(&conv(x)), mzkh::fe_from_big::<KFq>(&conv(y))];
+                } else {
+                    w.kb = vec![mzkh::fe_from_big::<KFp>(&conv(x)), mzkh::fe_from_big::<KFp>(&conv(y))];
+                }
+                w
+            }
+            macro_rules! gen {
+                ($K:ty) => {{
+                    let r1 = <$K>::random(&mut *rng);
+                    let r2 = <$K>::random(&mut *rng);
+                    let hi = <$K>::from(2).pow_vartime([200u64]);
+                    let mut v = vec![
+                        ("0,0", <$K>::ZERO, <$K>::ZERO),
+                        ("0,1", <$K>::ZERO, <$K>::ONE),
+                        ("1,0", <$K>::ONE, <$K>::ZERO),
+                        ("-1,-1", -<$K>::ONE, -<$K>::ONE),
+                        ("-1,1", -<$K>::ONE, <$K>::ONE),
+                        ("x,x", r1, r1),
+                        ("x,-x", r1, -r1),
+                        ("2^200,2^200", hi, hi),
+                        ("x,y", r1, r2),
+                    ];
+                    for _ in 0..nrand {
+                        v.push(("rand", <$K>::random(&mut *rng), <$K>::random(&mut *rng)));
+                    }
+                    v.into_iter()
+                        .map(|(n, x, y)| {
+                            let zero_div = (matches!(op, Op::FfDiv(_)) && y == <$K>::ZERO)
+                                || (matches!(op, Op::FfInv(_)) && x == <$K>::ZERO);
+                            Class { name: n.to_string(), w: mk::<$K>(*sc, x, y), sat: !zero_div }
+                        })
+                        .collect::<Vec<_>>()
+                }};
+            }
+            if *sc {
+                out.extend(gen!(KFq));
+            } else {
+                out.extend(gen!(KFp));
+            }
+        }
+        Op::K1Add | Op::K1IsEqual | Op::K1Select => {
+            let g = K256::generator();
+            let id = K256::identity();
+            let r1 = g * KFq::random(&mut *rng);
+            let r2 = g * KFq::random(&mut *rng);
+            for (n, p, q) in [
+                ("id,id", id, id), ("id,g", id, g), ("g,id", g, id), ("p,p", r1, r1), ("p,-p", r1, -r1),
+                ("p,q", r1, r2),
+            ] {
+                for b in [false, true] {
+                    if *op != Op::K1Select && b {
+                        continue;
+                    }
+                    out.push(cls(&format!("{n},c={b}"), W { kp: vec![p, q], b: vec![b], ..W::default() }));
+                }
+            }
+        }
+        Op::K1Double | Op::K1Negate | Op::K1MulConst(_) | Op::K1Pi => {
+            let g = K256::generator();
+            out.push(cls("id", W { kp: vec![K256::identity()], ..W::default() }));
+            out.push(cls("g", W { kp: vec![g], ..W::default() }));
+            for i in 0..nrand {
+                out.push(cls(&format!("rand{i}"), W { kp: vec![g * KFq::random(&mut *rng)], ..W::default() }));
+            }
+        }
+        Op::K1Msm(n) => {
+            let g = K256::generator();
+            let n = *n;
+            let pts = |rng: &mut ChaCha8Rng| (0..n).map(|_| g * KFq::random(&mut *rng)).collect::<Vec<_>>();
+            out.push(cls("s=0", W { ks: vec![KFq::ZERO; n], kp: pts(rng), ..W::default() }));
+            out.push(cls("s=1", W { ks: vec![KFq::ONE; n], kp: pts(rng), ..W::default() }));
+            out.push(cls("s=-1", W { ks: vec![-KFq::ONE; n], kp: pts(rng), ..W::default() }));
+            out.push(cls("p=id", W { ks: vec![KFq::from(5); n], kp: vec![K256::identity(); n], ..W::default() }));
+            out.push(cls("same-base", W { ks: (0..n).map(|_| KFq::random(&mut *rng)).collect(), kp: vec![g; n], ..W::default() }));
+            for i in 0..nrand.min(2) {
+                out.push(cls(&format!("rand{i}"), W { ks: (0..n).map(|_| KFq::random(&mut *rng)).collect(), kp: pts(rng), ..W::default() }));
+            }
+        }
+        Op::BlsAdd | Op::BlsDouble | Op::BlsMsm => {
+            let g = G1Projective::generator();
+            let id = G1Projective::identity();
+            let r1 = g * F::random(&mut *rng);
+            let r2 = g * F::random(&mut *rng);
+            for (n, p, q, x) in [
+                ("id,id", id, id, F::ZERO), ("id,g", id, g, F::ONE), ("p,p", r1, r1, -F::ONE), ("p,-p", r1, -r1, F::from(2)),
+                ("p,q", r1, r2, rand_f(rng)),
+            ] {
+                out.push(cls(n, W { gp: vec![p, q], f: vec![x], ..W::default() }));
+            }
+        }
+        Op::Sha256(n) | Op::Sha512(n) | Op::Sha3(n) | Op::Keccak(n) | Op::Blake2b(n) | Op::Base64(n, _) | Op::FetchBytes(n, _) => {
+            let n = *n;
+            if let Op::Base64(..) = op {
+                let alpha = b"ABCDEFGHIJKLMNOPQRSTUVWXYZabcdefghijklmnopqrstuvwxyz0123456789+/";
+                out.push(cls("allA", W { y: vec![b'A'; n], ..W::default() }));
+                out.push(cls("all/", W { y: vec![b'/'; n], ..W::default() }));
+                for i in 0..nrand {
+                    out.push(cls(&format!("rand{i}"), W { y: (0..n).map(|_| alpha[rng.gen::<usize>() % 64]).collect(), ..W::default() }));
+                }
+                out.push(unsat("invalid-char", W { y: vec![b'!'; n], ..W::default() }));
+            } else {
+                out.push(cls("all0", W { y: vec![0; n], f: vec![F::ZERO], ..W::default() }));
+                out.push(cls("allff", W { y: vec![255; n], f: vec![F::ONE], ..W::default() }));
+                for i in 0..nrand {
+                    let idx = if let Op::FetchBytes(n, len) = op { rng.gen::<usize>() % (n - len + 1) } else { 0 };
+                    out.push(cls(&format!("rand{i}"), W { y: (0..n).map(|_| rng.gen()).collect(), f: vec![F::from(idx as u64)], ..W::default() }));
+                }
+                if let Op::FetchBytes(n, len) = op {
+                    out.push(cls("idx=max", W { y: (0..*n).map(|i| i as u8).collect(), f: vec![F::from((n - len) as u64)], ..W::default() }));
+                    out.push(unsat("idx=max+1", W { y: vec![1; *n], f: vec![F::from((n - len + 1) as u64)], ..W::default() }));
+                    out.push(unsat("idx=-1", W { y: vec![1; *n], f: vec![-F::ONE], ..W::default() }));
+                }
+            }
+        }
+        Op::BigAdd(nb) | Op::BigSub(nb) | Op::BigMul(nb) | Op::BigDivRem(nb) | Op::BigModExp(nb, _) | Op::BigLt(nb)
+        | Op::BigToBytes(nb) | Op::BigPi(nb) => {
+            use num_traits::{One, Zero};
+            let max = (BigUint::one() << *nb) - BigUint::one();
+            let half = BigUint::one() << (*nb - 1);
+            let rb = |rng: &mut ChaCha8Rng| {
+                let bytes: Vec<u8> = (0..(*nb as usize).div_ceil(8)).map(|_| rng.gen()).collect();
+                BigUint::from_bytes_le(&bytes) & &max
+            };
+            let r1 = rb(rng);
+            let mut v = vec![
+                ("0,0", BigUint::zero(), BigUint::zero()),
+                ("0,1", BigUint::zero(), BigUint::one()),
+                ("1,0", BigUint::one(), BigUint::zero()),
+                ("max,max", max.clone(), max.clone()),
+                ("max,1", max.clone(), BigUint::one()),
+                ("half,half", half.clone(), half.clone()),
+                ("x,x", r1.clone(), r1.clone()),
+                ("x,x+1", r1.clone(), (&r1 + BigUint::one()) & &max),
+            ];
+            for _ in 0..nrand {
+                v.push(("rand", rb(rng), rb(rng)));
+            }
+            for (n, x, y) in v {
+                let bad = (matches!(op, Op::BigSub(_)) && x < y)
+                    || (matches!(op, Op::BigDivRem(_) | Op::BigModExp(..)) && y.is_zero());
+                out.push(Class { name: n.to_string(), w: W { big: vec![x, y], ..W::default() }, sat: !bad });
+            }
+            out.push(unsat("x=2^nb", W { big: vec![&max + BigUint::one(), BigUint::one()], ..W::default() }));
+        }
+        Op::VecLimits | Op::VecPadFlag | Op::VecTrim(_) | Op::VecResize | Op::VecEq => {
+            // every length 0..=M (vector lengths are witness data)
+            for len in 0..=VM {
+                let vy: Vec<u8> = (0..len).map(|i| (i as u8).wrapping_mul(37).wrapping_add(1)).collect();
+                let mut c = cls(&format!("len={len}"), W { vy: vy.clone(), y: vy.clone(), ..W::default() });
+                if let Op::VecTrim(n) = op {
+                    c.sat = len >= *n;
+                }
+                out.push(c);
+            }
+            out.push(cls("len=5,other=3", W { vy: vec![1, 2, 3, 4, 5], y: vec![1, 2, 3], ..W::default() }));
+            out.push(cls("len=4,differs", W { vy: vec![1, 2, 3, 4], y: vec![1, 2, 3, 5], ..W::default() }));
+            for i in 0..nrand {
+                let len = rng.gen::<usize>() % (VM + 1);
+                out.push(cls(&format!("rand{i}"), W { vy: (0..len).map(|_| rng.gen()).collect(), y: (0..len).map(|_| rng.gen()).collect(), ..W::default() }));
+            }
+            if let Op::VecTrim(n) = op {
+                for c in out.iter_mut() {
+                    c.sat = c.w.vy.len() >= *n;
+                }
+            }
+        }
+        Op::MapGet | Op::MapInsert => {
+            let empty = Map::new(&F::ZERO);
+            let mut one = Map::new(&F::ZERO);
+            one.insert(&F::from(7), &F::from(9));
+            let mut many = Map::new(&F::from(3));
+            for i in 0..20u64 {
+                many.insert(&F::from(i * i + 1), &F::from(i));
+            }
+            for (mn, m) in [("empty", empty), ("one", one), ("many", many)] {
+                for (kn, k) in [("hit", F::from(7)), ("miss", F::from(8)), ("zero", F::ZERO), ("-1", -F::ONE), ("rand", rand_f(rng))] {
+                    out.push(cls(&format!("{mn},{kn}"), W { f: vec![k, F::from(11)], map: Some(m.clone()), ..W::default() }));
+                }
+            }
+        }
         Op::PiByte => {
             for x in [0u8, 1, 255] {
                 out.push(cls(&format!("{x}"), W { y: vec![x], ..W::default() }));
@@ -730,8 +1410,105 @@ pub fn all_ops(tier: &str) -> Vec<Op> {
         Op::FixedSeq(vec![1, 2, 1, 3, 2, 1]),
         Op::FixedSeq(vec![0, 0, 0]),
     ];
+    v.extend([
+        Op::JubAdd,
+        Op::JubDouble,
+        Op::JubNegate,
+        Op::JubMsm(1),
+        Op::JubMulConst(0),
+        Op::JubMulConst(5),
+        Op::JubIsEqual,
+        Op::JubSelect,
+        Op::JubFromCoords,
+        Op::JubScalarFromNative,
+        Op::JubPi,
+        Op::Poseidon(1),
+        Op::Poseidon(2),
+        Op::Poseidon(5),
+        Op::HashToCurve(2),
+        Op::FfAdd(true),
+        Op::FfSub(true),
+        Op::FfMul(true),
+        Op::FfDiv(true),
+        Op::FfNeg(true),
+        Op::FfInv(true),
+        Op::FfIsEqual(true),
+        Op::FfIsZero(true),
+        Op::FfToBits(true),
+        Op::FfToBytes(true),
+        Op::FfPi(true),
+        Op::FfAdd(false),
+        Op::FfMul(false),
+        Op::FfDiv(false),
+        Op::FfIsEqual(false),
+        Op::K1Add,
+        Op::K1Double,
+        Op::K1Negate,
+        Op::K1IsEqual,
+        Op::K1Select,
+        Op::K1Pi,
+        Op::K1MulConst(5),
+        Op::Sha256(0),
+        Op::Sha256(3),
+        Op::Sha256(55),
+        Op::Sha256(56),
+        Op::BigAdd(64),
+        Op::BigAdd(300),
+        Op::BigSub(300),
+        Op::BigMul(300),
+        Op::BigDivRem(200),
+        Op::BigModExp(200, 3),
+        Op::BigLt(300),
+        Op::BigToBytes(120),
+        Op::BigPi(300),
+        Op::VecLimits,
+        Op::VecPadFlag,
+        Op::VecTrim(4),
+        Op::VecResize,
+        Op::VecEq,
+        Op::MapGet,
+        Op::MapInsert,
+        Op::Base64(8, true),
+        Op::Base64(6, false),
+        Op::FetchBytes(40, 5),
+    ]);
     if tier != "quick" {
         v.extend([
+            Op::JubMsm(3),
+            Op::Poseidon(9),
+            Op::HashToCurve(1),
+            Op::FfSub(false),
+            Op::FfNeg(false),
+            Op::FfInv(false),
+            Op::FfIsZero(false),
+            Op::FfToBits(false),
+            Op::FfToBytes(false),
+            Op::FfPi(false),
+            Op::K1Msm(1),
+            Op::K1Msm(2),
+            Op::BlsAdd,
+            Op::BlsDouble,
+            Op::BlsMsm,
+            Op::Sha256(64),
+            Op::Sha256(119),
+            Op::Sha256(120),
+            Op::Sha512(0),
+            Op::Sha512(111),
+            Op::Sha512(112),
+            Op::Sha3(0),
+            Op::Sha3(135),
+            Op::Sha3(136),
+            Op::Keccak(5),
+            Op::Blake2b(0),
+            Op::Blake2b(128),
+            Op::Blake2b(129),
+            Op::BigMul(1024),
+            Op::BigModExp(1024, 3),
+            Op::BigModExp(200, 65537),
+            Op::BigDivRem(500),
+            Op::VecTrim(8),
+            Op::Base64(64, true),
+            Op::FetchBytes(100, 31),
             Op::Pow(255),
             Op::LinComb(17),
             Op::ToLeBits(Some(128), true),
